@@ -8,6 +8,7 @@
 mod alloc_count;
 mod ops_box;
 mod ops_boxobj;
+mod ops_curve;
 mod ops_hash;
 mod ops_stream;
 mod util;
@@ -22,6 +23,9 @@ fn dispatch(op: &str, args: &[&str]) -> Ans {
         return a;
     }
     if let Some(a) = ops_box::dispatch(op, args) {
+        return a;
+    }
+    if let Some(a) = ops_curve::dispatch(op, args) {
         return a;
     }
     if let Some(a) = ops_stream::dispatch(op, args) {
